@@ -7,7 +7,7 @@ sys.path.insert(0,'/verif')
 import props, check
 P=props.PROPS[sys.argv[1]]
 h=[x for x in P['harnesses'] if x['name']==sys.argv[2]][0]
-tu=check.compile_tu(h['src'], h.get('std','c++17'), bool(h.get('exc')), list(h.get('defs',[])), sys.argv[1])
+tu=check.compile_tu(h['src'], h.get('std','c++17'), bool(h.get('exc')), list(h.get('defs',[])), sys.argv[1], tuple(h.get('extra',[])))
 if not tu['ok']: print('COMPILE FAIL', tu['err'][-2000:]); sys.exit(1)
 json.dump({k:v for k,v in h.items() if not k.startswith('_')}, open(sys.argv[3],'w'))
 print(tu['ll'])
